@@ -5,6 +5,7 @@ import (
 	"os"
 	"reflect"
 	"strings"
+	"unicode/utf8"
 
 	textwire "github.com/textwire/textwire/v2"
 	"github.com/textwire/textwire/v2/config"
@@ -217,12 +218,14 @@ var cfStrings = []string{"", "a", "plain text", "héllo", "中", "x y z", "0", "
 
 // strings with HTML-special characters only travel through the data map or
 // come back as results (a literal would be escaped, which is C10's business)
-var cfSpecialStrings = []string{"<b>bold</b>", "a & b", "\"quoted\" 'single'", "&lt;already&gt;", "1 < 2 > 0"}
+var cfSpecialStrings = []string{"<b>bold</b>", "a & b", "\"quoted\" 'single'", "&lt;already&gt;", "1 < 2 > 0",
+	// bytes that are not UTF-8: the function receives them as they are
+	"caf\xe9", "\xff\xfe", "a\xc3", "\x80 mid \xe2\x82"}
 
 func hasSpecial(v model.Value) bool {
 	switch v.K {
 	case model.KStr:
-		return strings.ContainsAny(v.S, "<>&\"'\n")
+		return strings.ContainsAny(v.S, "<>&\"'\n") || !utf8.ValidString(v.S)
 	case model.KArr:
 		for _, e := range v.A {
 			if hasSpecial(e) {
@@ -727,6 +730,51 @@ func specialConversionCase(c *core.Ctx, i int) {
 				c.Violation("conversion:entry-point:Response", fmt.Sprintf("Response(%s) gave (%q, %v), want %q", page, rec.body.String(), rerr, w), desc)
 			}
 		}
+		// an unregistered name is an error through every entry point, under every configuration of the error page
+		typeName := map[string]string{`"s"`: "STRING", "[1, 2]": "ARRAY", "7": "INTEGER", "2.5": "FLOAT", "true": "BOOLEAN"}[rs]
+		ghostSrc := "before {{ " + rs + ".rec() }} {{ " + rs + ".neverRegistered(1) }} after"
+		files["ghost.tw"] = ghostSrc
+		files["inslot.tw"] = "@component(\"~c\", {v: v})@slot" + ghostSrc + "@end@end"
+		files["errors/e.tw"] = "<custom error page>"
+		if err := writeFilesFresh("c20tree", files); err != nil {
+			c.Inconclusive(err.Error())
+			return
+		}
+		named := func(where string, err error) {
+			if err == nil {
+				c.Violation("registry:unregistered-call-accepted:"+where, fmt.Sprintf("%s: calling %s.neverRegistered(1) returned no error", where, rs), map[string]any{"source": ghostSrc})
+			} else if !strings.Contains(err.Error(), "neverRegistered") || !strings.Contains(err.Error(), typeName) {
+				c.Violation("conversion:unregistered-call-message", fmt.Sprintf("%s: the error does not name the function and the receiver type %s: %s", where, typeName, err.Error()), map[string]any{"source": ghostSrc})
+			}
+		}
+		_, serr := textwire.EvaluateString(ghostSrc, data)
+		named("EvaluateString", serr)
+		_, ferr = textwire.EvaluateFile("c20tree/ghost.tw", data)
+		named("EvaluateFile", ferr)
+		for _, cfg := range []*config.Config{{TemplateDir: "c20tree", TemplateExt: ".tw"}, {TemplateDir: "c20tree", TemplateExt: ".tw", ErrorPagePath: "errors/e"}, {TemplateDir: "c20tree", TemplateExt: ".tw", ErrorPagePath: "errors/e", DebugMode: true}} {
+			textwire.VerifResetConfig()
+			var t2 *textwire.Template
+			var lerr error
+			c.Eval(1)
+			if c.Guard(func() { t2, lerr = textwire.NewTemplate(cfg) }) || lerr != nil || t2 == nil {
+				continue
+			}
+			for _, page := range []string{"ghost", "inslot"} {
+				where := fmt.Sprintf("(error page %q, debug %v) %s", cfg.ErrorPagePath, cfg.DebugMode, page)
+				if _, fe := t2.String(page, data); fe == nil {
+					named("String "+where, nil)
+				} else {
+					named("String "+where, fe.Error())
+				}
+				rec := newRecorder()
+				var rerr error
+				c.Eval(1)
+				if !c.Guard(func() { rerr = t2.Response(rec, page, data) }) {
+					named("Response "+where, rerr)
+				}
+			}
+		}
+		textwire.VerifResetConfig()
 	}
 }
 
